@@ -1724,21 +1724,27 @@ def real_samples(
         else:
             neg_diff = diff_ulp(abs(min_value), min_pos_value)
             pos_diff = diff_ulp(abs(max_value), min_pos_value)
+            # each side needs both of its end points (a single point when
+            # its bound is the smallest positive value itself)
+            rest = num - int(bool(include_zero))
+            neg_min = 1 if neg_diff == 0 else 2
+            pos_min = 1 if pos_diff == 0 else 2
             neg_num = int(neg_diff * num / max(1, neg_diff + pos_diff))
-            pos_num = num - neg_num - int(bool(include_zero))
+            neg_num = max(neg_min, min(neg_num, rest - pos_min))
+            pos_num = rest - neg_num
 
             neg_part = real_samples(
                 size=neg_num,
                 dtype=dtype,
                 include_subnormal=include_subnormal,
                 min_value=min_value,
-                max_value=-min_pos_value if min_value < -min_pos_value else -dtype(0),
+                max_value=-min_pos_value if min_value < -min_pos_value else min_value,
             )
             pos_part = real_samples(
                 size=pos_num,
                 dtype=dtype,
                 include_subnormal=include_subnormal,
-                min_value=min_pos_value if min_pos_value < max_value else dtype(0),
+                min_value=min_pos_value if min_pos_value < max_value else max_value,
                 max_value=max_value,
             )
             if include_zero:
